@@ -462,12 +462,12 @@ def isASLoop (peer : Peer) (p : Path) : Bool := (asList p).contains peer.as
 def fromSource (peer : Peer) (p : Path) (old : Option Path) : Verdict :=
   if peer.routerId != p.src.id then .path p
   else
-    if !peer.rsClient then
-      if peer.rrClient && p.family == RF_RTC_UC then .path p
-      else match old with
-        | some o => if !p.withdraw && o.src.addr != peer.addr then .withdrawOld else .drop
-        | none => .drop
-    else .drop
+    -- after the route-server-client fix the withdraw-old branch applies to every kind of peer;
+    -- only the RTC exception stays restricted to non route-server clients
+    if !peer.rsClient && peer.rrClient && p.family == RF_RTC_UC then .path p
+    else match old with
+      | some o => if !p.withdraw && o.src.addr != peer.addr then .withdrawOld else .drop
+      | none => .drop
 
 /-- the `ignore` computation of filterpath's iBGP block; `none` = return nil at once (local
     cluster-id found in CLUSTER_LIST) -/
